@@ -12,7 +12,7 @@ MISSED = {
  '/tmp/seeded6/Y06/2': 'derived-data rule shared with C06 (C06.6) for the queries the history save / restore answers from; was reported by C01/C02/C03/C04/C07/C11/C16/C17 only',
  '/tmp/seeded6/Y07/4': 'copy-hook rule shared with C17 (C17.7), with a per-field copy-depth analysis against the declared field types; was reported by C18.5 only',
  '/tmp/seeded6/Y08/3': 'C18.5: a nested deepcopy inside __deepcopy__ is handed the memo',
- '/tmp/seeded6/Y09/3': 'C19.7: no memoised function of the BDD layer returns an object built by eval',
+ '/tmp/seeded6/Y09/3': 'C19.8: no memoised function of the BDD layer returns an object built by eval',
  '/tmp/seeded6/Y10/2': 'C10.8: collected events and notifications are raised by one loop, each unconditionally; was reported by C03/C08/C15 only',
 }
 dirs = sorted(glob.glob('/tmp/seeded6/Y*/[0-9]'))
